@@ -80,7 +80,7 @@ pub static CHAR_POOL: &[char] = &[
     ';', ',', '.', '(', ')', '{', '}', '[', ']', '@', '#', '~', '?', ':', '$', '=', '!', '<', '>', '-', '&',
     '|', '+', '*', '/', '^', '%', '_', '"', '\'', '\\', '0', '1', '2', '7', '9', 'e', 'E', 'x', 'b', 'o',
     'p', 'O', 's', 'a', 'd', 'i', 'm', 'n', 't', 'u', 'q', 'r', 'g', 'X', 'B', ' ', ' ', ' ', '\t', '\r',
-    '\n', '\n', '\u{85}', '\u{2028}', '\0', 'µ', 'é', 'π', 'ℇ', '中', '😀', '𝛑', '\u{200d}', 'τ', '№',
+    '\n', '\n', '\u{85}', '\u{2028}', '\0', 'µ', 'é', 'π', 'ℇ', '中', '😀', '𝛑', '\u{200d}', 'τ', '№', '\u{feff}', '\u{200b}', '\u{a0}', '\u{b}', '\u{c}',
 ];
 
 pub static FRAGMENTS: &[&str] = &[
@@ -110,10 +110,56 @@ pub fn gen_chars(src: &mut Src, max_items: usize) -> String {
     s
 }
 
+/// Put a special character in front of / behind a generated text now and then (byte order mark,
+/// NUL, zero-width space, form feed, a lone carriage return …): whole-file edge positions.
+/// Draws come after the text's own draws, so an exhausted source leaves the text unchanged.
+pub fn decorate(src: &mut Src, text: String) -> String {
+    const EDGE: &[&str] = &["\u{feff}", "\0", "\u{200b}", "\u{c}", "\r", "\u{feff}\u{feff}", "\u{a0}", "\u{2029}", "\\", "\u{1}"];
+    let mut t = text;
+    if src.chance(1, 10) {
+        t = format!("{}{t}", EDGE[src.below(EDGE.len())]);
+    }
+    if src.chance(1, 16) {
+        t.push_str(EDGE[src.below(EDGE.len())]);
+    }
+    t
+}
+
+/// Quoted literals made of escape sequences (valid, malformed, truncated) and multi-byte
+/// characters, inside a small statement context: the inputs of literal validation.
+pub fn gen_escape_text(src: &mut Src) -> String {
+    const PIECES: &[&str] = &[
+        "\\n", "\\t", "\\r", "\\\\", "\\\"", "\\'", "\\0", "\\x41", "\\x7F", "\\x80", "\\xFF", "\\xZZ", "\\x4", "\\x",
+        "\\u{41}", "\\u{}", "\\u{D800}", "\\u{DFFF}", "\\u{10FFFF}", "\\u{110000}", "\\u{1234567}", "\\u{_1}", "\\u{1_0}",
+        "\\u{zz}", "\\u{41", "\\u{", "\\u", "\\q", "\\é", "\\", "é", "€", "😀", "\u{feff}", "a", "0", "1", "_", " ", "\n", "\t",
+        "{", "}", "/*", "//", "\r",
+    ];
+    let mut s = String::new();
+    let n_lits = 1 + src.below(3);
+    for _ in 0..n_lits {
+        s.push_str(["", "x = ", "include ", "bit[4] b = ", "f(", "pragma ", "@a ", "é = ", "/*é*/ "][src.below(9)]);
+        let q = ["\"", "'", "b'", "b\""][src.weighted(&[6, 3, 1, 1])];
+        s.push_str(q);
+        let n = src.below(7);
+        for _ in 0..n {
+            s.push_str(PIECES[src.below(PIECES.len())]);
+        }
+        // mostly terminated, sometimes with the other quote or not at all
+        match src.below(8) {
+            0 => {}
+            1 => s.push_str(if q.ends_with('"') { "'" } else { "\"" }),
+            _ => s.push(q.chars().last().unwrap()),
+        }
+        s.push_str([";", ";\n", ")", " ", "\n", ""][src.below(6)]);
+    }
+    s
+}
+
 pub static EXH_ALPHABETS: &[(&str, [&str; 14])] = &[
     ("numeric", ["0", "1", "x", "e", ".", "_", "+", "s", "µ", "b", "n", " ", "\"", "\n"]),
     ("quote", ["\"", "'", "\\", "/", "*", "\n", "_", "0", "1", "a", "é", "\0", " ", "#"]),
     ("prefix", ["p", "r", "a", "g", "m", "O", "#", "$", "@", "d", "i", " ", "\n", "1"]),
+    ("escape", ["\"", "\\", "u", "x", "{", "}", "_", "0", "8", "\u{feff}", "F", "é", "'", "n"]),
 ];
 
 /// Write the `idx`-th string of length `len` over `alpha` into `out`.
